@@ -491,6 +491,9 @@ def run(ctx):
                 for pos in poss:
                     for tcv in (tcs if pos == poss[0] else [0, 0xC5]):
                         ej.append((mobile, dhl, dlt, tcv, btp, pos, seqs_q if pos == poss[0] and tcv in (0,) else [7]))
+    # default lifetimes around the multiplier limits of every LT base (the 6-bit multiplier must not spill into the reserved octet)
+    for dlt in (1, 2, 3, 4, 5, 6, 31, 59, 61, 62, 63, 64, 65, 66, 69, 70, 71, 100, 599, 600, 629, 630, 631, 639, 640, 650, 699, 700):
+        ej.append((1, 10, dlt, 0, "B", poss[0], [7]))
     if thorough:
         jobs.append((sn_sweep_job, 65600))
     jobs += [(emit_job, e) for e in ej]
